@@ -173,3 +173,24 @@ Print Assumptions pattern_after_pairing.
 Print Assumptions stranger_rejected_gen.
 Print Assumptions stranger_rejected.
 Print Assumptions stranger_rejected_any_passphrase.
+
+(* ------------------------------------------------------------------ *)
+(* a first pairing that loses its last message                         *)
+(* ------------------------------------------------------------------ *)
+Definition drop_act3 : adversary := fun a m => if a =? 3 then [] else m.
+
+(* XX at version 2, act 3 never arrives: the initiator has completed and called SetRemote with the responder's key,
+   the responder has failed and stored nothing; the rendezvous and the pattern each side derives from what it now
+   holds differ, for any pass phrase *)
+Theorem interrupted_first_pairing_splits : forall e e',
+  let r := run (example_cfg false 0 2 0 2) drop_act3 in
+  (exists s, r_init r = Completed s /\ s_set_remote s = true /\ s_remote s = Some (Pub (Priv 2))) /\
+  r_resp r = Failed 3 /\
+  sid_of (Priv 1) (Some (Pub (Priv 2))) e <> sid_of (Priv 2) None e' /\
+  pattern_kk (Some (Pub (Priv 2))) = true /\ pattern_kk None = false.
+Proof.
+  intros e e'. cbv zeta.
+  split.
+  - eexists. split; [vm_compute; reflexivity|]. split; reflexivity.
+  - split; [vm_compute; reflexivity|]. split; [unfold sid_of; discriminate|]. split; reflexivity.
+Qed.
